@@ -397,6 +397,16 @@ def _views(t, buf):
         if tag(t) in ('index', 'field', 'downcast'):
             t = t[1]
             continue
+        if tag(t) == 'call' and short(t[1]) in ('deref_mut', 'deref', 'as_mut_slice', 'as_mut', 'borrow_mut') and len(t[2]) == 1:
+            t = t[2][0]
+            continue
+        if tag(t) == 'item':
+            # `for arr in [&mut a, &mut b] { .. }`: the loop variable views each listed buffer in turn
+            it = t[2]
+            while tag(it) == 'call' and short(it[1]) in ('into_iter', 'iter_mut', 'iter') and it[2]:
+                it = it[2][0]
+            if tag(it) == 'agg' and it[1] in ('array', 'tuple'):
+                return any(_views(x, buf) for x in it[3])
         return False
 
 
